@@ -44,6 +44,19 @@ var logger *log.Logger
 
 var emptyRoot = common.HexToHash("56e81f171bcc55a6ff8345e692c0f86e5b48e01b996cadc001622fb5e363b421")
 
+// fail reports a monitor failure; at most 3 per signature (the report keeps 200 failures in all, a
+// frequent known finding must not crowd out anything else)
+var failCount = map[string]int{}
+
+func fail(rep *hlib.Report, sig, what string, c any) {
+	failCount[sig]++
+	if failCount[sig] <= 3 {
+		rep.Fail(sig, what, c)
+	} else {
+		rep.Count("suppressed-repeat:" + sig)
+	}
+}
+
 // ---------- case description (replayable) ----------
 
 type Op struct {
@@ -64,6 +77,10 @@ type Case struct {
 	N    int      `json:"n,omitempty"`
 	Vals [][]byte `json:"vals,omitempty"`
 	Keys [][]byte `json:"keys,omitempty"`
+	// range: Keys/Vals = the content of the trie, Qs = the VerifyRangeProof queries
+	Qs []RangeQ `json:"qs,omitempty"`
+	// db: a history over one trie.Database
+	DB []DBOp `json:"db,omitempty"`
 }
 
 // ---------- a trie under test (plain or secure) ----------
@@ -349,25 +366,25 @@ func checkProofs(rep *hlib.Report, c *Case, u *tut, content map[string][]byte, p
 		pk := cp(mk)
 		err := u.prove(pk, &pl)
 		if !bytes.Equal(pk, mk) {
-			rep.Fail("caller-buffer/prove-wrote-into-argument", fmt.Sprintf("Prove(%x) left its argument as %x", mk, pk), c)
+			fail(rep, "caller-buffer/prove-wrote-into-argument", fmt.Sprintf("Prove(%x) left its argument as %x", mk, pk), c)
 		}
 		scramble(pk)
 		if err != nil {
-			rep.Fail(pfx+"proof/prove-error/"+cls, fmt.Sprintf("Prove(%x) failed: %v", mk, err), c)
+			fail(rep, pfx+"proof/prove-error/"+cls, fmt.Sprintf("Prove(%x) failed: %v", mk, err), c)
 			continue
 		}
 		got, err := trie.VerifyProof(root, mk, proofDB(pl))
 		if err != nil {
 			if len(content) == 0 && len(pl) == 0 {
 				// F-C18-1: Prove on an empty trie emits no node and VerifyProof(emptyRoot, k, {}) errors
-				rep.Fail("proof/empty-trie-absence-unprovable", fmt.Sprintf("empty trie: Prove(%x) returns an empty proof and VerifyProof rejects it (%v) instead of proving absence", mk, err), c)
+				fail(rep, "proof/empty-trie-absence-unprovable", fmt.Sprintf("empty trie: Prove(%x) returns an empty proof and VerifyProof rejects it (%v) instead of proving absence", mk, err), c)
 				continue
 			}
-			rep.Fail(pfx+"proof/verify-error/"+cls, fmt.Sprintf("VerifyProof(%x) of an honest proof failed: %v", mk, err), c)
+			fail(rep, pfx+"proof/verify-error/"+cls, fmt.Sprintf("VerifyProof(%x) of an honest proof failed: %v", mk, err), c)
 			continue
 		}
 		if !bytes.Equal(got, want) {
-			rep.Fail(pfx+"proof/wrong-value/"+cls, fmt.Sprintf("VerifyProof(%x) = %x, trie holds %x", mk, got, want), c)
+			fail(rep, pfx+"proof/wrong-value/"+cls, fmt.Sprintf("VerifyProof(%x) = %x, trie holds %x", mk, got, want), c)
 			continue
 		}
 		rep.Count("proof:" + cls)
@@ -377,7 +394,7 @@ func checkProofs(rep *hlib.Report, c *Case, u *tut, content map[string][]byte, p
 			rest := append(append(proofList{}, pl[:i]...), pl[i+1:]...)
 			g2, err2 := trie.VerifyProof(root, mk, proofDB(rest))
 			if err2 == nil && !bytes.Equal(g2, want) {
-				rep.Fail("proof/dropped-node-different-value/"+cls, fmt.Sprintf("proof of %x without node %d verifies to %x instead of %x", mk, i, g2, want), c)
+				fail(rep, "proof/dropped-node-different-value/"+cls, fmt.Sprintf("proof of %x without node %d verifies to %x instead of %x", mk, i, g2, want), c)
 			}
 		}
 		// single-bit corruptions of each proof node
@@ -400,7 +417,7 @@ func checkProofs(rep *hlib.Report, c *Case, u *tut, content map[string][]byte, p
 				rep.Count("proof:corruptions")
 				if err2 == nil {
 					if !bytes.Equal(g2, want) {
-						rep.Fail("proof/corruption-different-value/"+cls,
+						fail(rep, "proof/corruption-different-value/"+cls,
 							fmt.Sprintf("proof of %x with bit %d of node %d flipped verifies to %x instead of %x", mk, b, i, g2, want), c)
 						break
 					}
@@ -467,7 +484,7 @@ func scramble(b []byte) {
 func runTrieCase(rep *hlib.Report, cw *hlib.CaseWriter, c *Case, rng *hlib.Rng, tier string) {
 	defer func() {
 		if r := recover(); r != nil {
-			rep.Fail("panic/trie-history", fmt.Sprintf("panic while running a history: %v", r), c)
+			fail(rep, "panic/trie-history", fmt.Sprintf("panic while running a history: %v", r), c)
 		}
 	}()
 	hs := []*handle{{u: newTut(c.Secure), content: map[string][]byte{}, touched: map[string]bool{}, last: "DN"}}
@@ -504,7 +521,7 @@ func runTrieCase(rep *hlib.Report, cw *hlib.CaseWriter, c *Case, rng *hlib.Rng, 
 		got := h.u.hash()
 		sc := sortedContent(h.content)
 		if f := freshRoot(sc); f != got {
-			rep.Fail(pfx(hi)+"history-independence/"+phase, fmt.Sprintf("Hash() %x of handle %d (%s) after the history differs from %x of a fresh trie with the same %d pairs (sorted insertion)", got, hi, hname(hi), f, len(sc)), c)
+			fail(rep, pfx(hi)+"history-independence/"+phase, fmt.Sprintf("Hash() %x of handle %d (%s) after the history differs from %x of a fresh trie with the same %d pairs (sorted insertion)", got, hi, hname(hi), f, len(sc)), c)
 			return
 		}
 		rev := make([]kv, len(sc))
@@ -512,7 +529,7 @@ func runTrieCase(rep *hlib.Report, cw *hlib.CaseWriter, c *Case, rng *hlib.Rng, 
 			rev[len(sc)-1-i] = sc[i]
 		}
 		if f := freshRoot(rev); f != got {
-			rep.Fail(pfx(hi)+"history-independence/"+phase, fmt.Sprintf("fresh tries with the same content disagree: reversed insertion gives %x, history gives %x", f, got), c)
+			fail(rep, pfx(hi)+"history-independence/"+phase, fmt.Sprintf("fresh tries with the same content disagree: reversed insertion gives %x, history gives %x", f, got), c)
 		}
 	}
 	checkContent := func(hi int, phase string) {
@@ -522,7 +539,7 @@ func runTrieCase(rep *hlib.Report, cw *hlib.CaseWriter, c *Case, rng *hlib.Rng, 
 			want := h.content[string(h.u.mkey(raw))]
 			got, err := h.u.get(raw)
 			if err != nil || !bytes.Equal(got, want) {
-				rep.Fail(pfx(hi)+"content/"+phase, fmt.Sprintf("handle %d (%s): Get(%x) = %x (err %v), last write through this handle was %x", hi, hname(hi), []byte(k), got, err, want), c)
+				fail(rep, pfx(hi)+"content/"+phase, fmt.Sprintf("handle %d (%s): Get(%x) = %x (err %v), last write through this handle was %x", hi, hname(hi), []byte(k), got, err, want), c)
 				return
 			}
 		}
@@ -532,7 +549,7 @@ func runTrieCase(rep *hlib.Report, cw *hlib.CaseWriter, c *Case, rng *hlib.Rng, 
 		h := hs[hi]
 		s, d, err := dumpString(h.u)
 		if err != nil {
-			rep.Fail("dump/live", fmt.Sprintf("trie (handle %d) cannot be traversed: %v", hi, err), c)
+			fail(rep, "dump/live", fmt.Sprintf("trie (handle %d) cannot be traversed: %v", hi, err), c)
 			return "", false
 		}
 		_ = d
@@ -543,11 +560,11 @@ func runTrieCase(rep *hlib.Report, cw *hlib.CaseWriter, c *Case, rng *hlib.Rng, 
 		h := hs[hi]
 		s, d, err := dumpString(h.u)
 		if err != nil {
-			rep.Fail("dump/"+phase, fmt.Sprintf("trie (handle %d) cannot be traversed: %v", hi, err), c)
+			fail(rep, "dump/"+phase, fmt.Sprintf("trie (handle %d) cannot be traversed: %v", hi, err), c)
 			return
 		}
 		if e := canonical(d, true, false); e != "" {
-			rep.Fail(pfx(hi)+"canonical/"+e, fmt.Sprintf("the node tree of handle %d is not in canonical form (%s) %s", hi, e, phase), c)
+			fail(rep, pfx(hi)+"canonical/"+e, fmt.Sprintf("the node tree of handle %d is not in canonical form (%s) %s", hi, e, phase), c)
 		}
 		emit(hi, "RDump ("+s+")")
 		kinds := strings.Count(s, "DF") + strings.Count(s, "DS")
@@ -572,11 +589,11 @@ func runTrieCase(rep *hlib.Report, cw *hlib.CaseWriter, c *Case, rng *hlib.Rng, 
 			}
 			s, _, err := dumpString(g.u)
 			if err != nil {
-				rep.Fail("persistence/untouched-handle-unreadable/"+after, fmt.Sprintf("handle %d (%s) cannot be traversed any more after a %s on another handle: %v", gi, hname(gi), after, err), c)
+				fail(rep, "persistence/untouched-handle-unreadable/"+after, fmt.Sprintf("handle %d (%s) cannot be traversed any more after a %s on another handle: %v", gi, hname(gi), after, err), c)
 				continue
 			}
 			if s != g.last {
-				rep.Fail("persistence/untouched-handle-changed/"+after, fmt.Sprintf("the node tree of handle %d (%s), to which no operation was applied, changed after a %s on another handle: was %s, is %s", gi, hname(gi), after, abbrev(g.last), abbrev(s)), c)
+				fail(rep, "persistence/untouched-handle-changed/"+after, fmt.Sprintf("the node tree of handle %d (%s), to which no operation was applied, changed after a %s on another handle: was %s, is %s", gi, hname(gi), after, abbrev(g.last), abbrev(s)), c)
 				g.last = s
 			}
 		}
@@ -615,11 +632,11 @@ func runTrieCase(rep *hlib.Report, cw *hlib.CaseWriter, c *Case, rng *hlib.Rng, 
 			kk, vv := cp(o.Key), cp(o.Val)
 			err := u.update(kk, vv)
 			if err != nil {
-				rep.Fail("error/update", fmt.Sprintf("TryUpdate failed: %v", err), c)
+				fail(rep, "error/update", fmt.Sprintf("TryUpdate failed: %v", err), c)
 				return
 			}
 			if !bytes.Equal(kk, o.Key) || !bytes.Equal(vv, o.Val) {
-				rep.Fail("caller-buffer/update-wrote-into-argument", fmt.Sprintf("TryUpdate(%x, %x) left its arguments as (%x, %x)", o.Key, o.Val, kk, vv), c)
+				fail(rep, "caller-buffer/update-wrote-into-argument", fmt.Sprintf("TryUpdate(%x, %x) left its arguments as (%x, %x)", o.Key, o.Val, kk, vv), c)
 			}
 			scramble(kk) // the key buffer is the caller's again; vv stays with the trie (documented)
 			mk := u.mkey(o.Key)
@@ -638,11 +655,11 @@ func runTrieCase(rep *hlib.Report, cw *hlib.CaseWriter, c *Case, rng *hlib.Rng, 
 			kk := cp(o.Key)
 			err := u.del(kk)
 			if err != nil {
-				rep.Fail("error/delete", fmt.Sprintf("TryDelete failed: %v", err), c)
+				fail(rep, "error/delete", fmt.Sprintf("TryDelete failed: %v", err), c)
 				return
 			}
 			if !bytes.Equal(kk, o.Key) {
-				rep.Fail("caller-buffer/delete-wrote-into-argument", fmt.Sprintf("TryDelete(%x) left its argument as %x", o.Key, kk), c)
+				fail(rep, "caller-buffer/delete-wrote-into-argument", fmt.Sprintf("TryDelete(%x) left its argument as %x", o.Key, kk), c)
 			}
 			scramble(kk)
 			mk := u.mkey(o.Key)
@@ -657,16 +674,16 @@ func runTrieCase(rep *hlib.Report, cw *hlib.CaseWriter, c *Case, rng *hlib.Rng, 
 			kk := cp(o.Key)
 			v, err := u.get(kk)
 			if err != nil {
-				rep.Fail("error/get", fmt.Sprintf("TryGet failed: %v", err), c)
+				fail(rep, "error/get", fmt.Sprintf("TryGet failed: %v", err), c)
 				return
 			}
 			if !bytes.Equal(kk, o.Key) {
-				rep.Fail("caller-buffer/get-wrote-into-argument", fmt.Sprintf("TryGet(%x) left its argument as %x", o.Key, kk), c)
+				fail(rep, "caller-buffer/get-wrote-into-argument", fmt.Sprintf("TryGet(%x) left its argument as %x", o.Key, kk), c)
 			}
 			scramble(kk)
 			mk := u.mkey(o.Key)
 			if !bytes.Equal(v, h.content[string(mk)]) {
-				rep.Fail(pfx(o.H)+"content/get", fmt.Sprintf("handle %d: Get(%x) = %x, last write was %x", o.H, o.Key, v, h.content[string(mk)]), c)
+				fail(rep, pfx(o.H)+"content/get", fmt.Sprintf("handle %d: Get(%x) = %x, last write was %x", o.H, o.Key, v, h.content[string(mk)]), c)
 			}
 			emit(o.H, fmt.Sprintf("RGet %s %s", pack(mk), pack(v)))
 			observed("get") // a read may load nodes into its own handle; no node tree changes, its own included
@@ -688,7 +705,7 @@ func runTrieCase(rep *hlib.Report, cw *hlib.CaseWriter, c *Case, rng *hlib.Rng, 
 			cops = append(cops, fmt.Sprintf("RCp %d%%nat", o.H))
 			// the copy is the source: same node tree
 			if s, _, err := dumpString(n.u); err != nil || s != h.last {
-				rep.Fail("persistence/copy-differs-from-source", fmt.Sprintf("a fresh copy of handle %d has node tree %s, the source has %s (err %v)", o.H, abbrev(s), abbrev(h.last), err), c)
+				fail(rep, "persistence/copy-differs-from-source", fmt.Sprintf("a fresh copy of handle %d has node tree %s, the source has %s (err %v)", o.H, abbrev(s), abbrev(h.last), err), c)
 				n.last = s
 			}
 			nontriv = true
@@ -696,14 +713,14 @@ func runTrieCase(rep *hlib.Report, cw *hlib.CaseWriter, c *Case, rng *hlib.Rng, 
 			before := u.hash()
 			root, err := u.commit(o.Var)
 			if err != nil {
-				rep.Fail("error/commit", fmt.Sprintf("Commit failed: %v", err), c)
+				fail(rep, "error/commit", fmt.Sprintf("Commit failed: %v", err), c)
 				return
 			}
 			if root != before {
-				rep.Fail("commit/root-changed", fmt.Sprintf("Commit returned %x, Hash() before was %x", root, before), c)
+				fail(rep, "commit/root-changed", fmt.Sprintf("Commit returned %x, Hash() before was %x", root, before), c)
 			}
 			if g := u.hash(); g != root {
-				rep.Fail("commit/reload-root", fmt.Sprintf("Hash() after commit/reload (variant %d) is %x, committed root %x", o.Var, g, root), c)
+				fail(rep, "commit/reload-root", fmt.Sprintf("Hash() after commit/reload (variant %d) is %x, committed root %x", o.Var, g, root), c)
 			}
 			phase := fmt.Sprintf("after-commit-%d", o.Var)
 			checkHash(o.H, phase)
@@ -732,7 +749,7 @@ func runTrieCase(rep *hlib.Report, cw *hlib.CaseWriter, c *Case, rng *hlib.Rng, 
 		}
 		for gi, g := range hs {
 			if s, _, err := dumpString(g.u); err != nil || s != g.last {
-				rep.Fail("persistence/untouched-handle-changed/final-checks", fmt.Sprintf("the node tree of handle %d changed while the handles were only hashed and read: was %s, is %s (err %v)", gi, abbrev(g.last), abbrev(s), err), c)
+				fail(rep, "persistence/untouched-handle-changed/final-checks", fmt.Sprintf("the node tree of handle %d changed while the handles were only hashed and read: was %s, is %s (err %v)", gi, abbrev(g.last), abbrev(s), err), c)
 			}
 		}
 		for hi := range hs {
@@ -838,7 +855,7 @@ func (r *recHasher) Hash() common.Hash    { return common.Hash{} }
 func runDeriveCase(rep *hlib.Report, cw *hlib.CaseWriter, c *Case) {
 	defer func() {
 		if r := recover(); r != nil {
-			rep.Fail("panic/derive-sha", fmt.Sprintf("panic in DeriveSha with %d items: %v", c.N, r), c)
+			fail(rep, "panic/derive-sha", fmt.Sprintf("panic in DeriveSha with %d items: %v", c.N, r), c)
 		}
 	}()
 	list := blobList(c.Vals)
@@ -852,7 +869,7 @@ func runDeriveCase(rep *hlib.Report, cw *hlib.CaseWriter, c *Case) {
 	full, _ := trie.New(common.Hash{}, trie.NewDatabase(memorydb.New(logger)))
 	hTrie := types.DeriveSha(list, full)
 	if hStack != hTrie {
-		rep.Fail("stacktrie/derive-sha/"+sig, fmt.Sprintf("DeriveSha over %d items: StackTrie %x, Trie %x", c.N, hStack, hTrie), c)
+		fail(rep, "stacktrie/derive-sha/"+sig, fmt.Sprintf("DeriveSha over %d items: StackTrie %x, Trie %x", c.N, hStack, hTrie), c)
 	}
 	// reference: rlp(i) -> item, inserted in plain index order into a fresh trie
 	ref, _ := trie.New(common.Hash{}, trie.NewDatabase(memorydb.New(logger)))
@@ -860,7 +877,7 @@ func runDeriveCase(rep *hlib.Report, cw *hlib.CaseWriter, c *Case) {
 		ref.Update(rlp.AppendUint64(nil, uint64(i)), c.Vals[i])
 	}
 	if h := ref.Hash(); h != hStack {
-		rep.Fail("stacktrie/derive-sha-vs-index-map/"+sig, fmt.Sprintf("DeriveSha over %d items gives %x, the trie of {rlp(i): item i} has root %x", c.N, hStack, h), c)
+		fail(rep, "stacktrie/derive-sha-vs-index-map/"+sig, fmt.Sprintf("DeriveSha over %d items gives %x, the trie of {rlp(i): item i} has root %x", c.N, hStack, h), c)
 	}
 	// the order in which DeriveSha feeds the hasher; every item exactly once, ascending keys
 	rec := &recHasher{}
@@ -868,13 +885,13 @@ func runDeriveCase(rep *hlib.Report, cw *hlib.CaseWriter, c *Case) {
 	seen := map[string]bool{}
 	for i, k := range rec.keys {
 		if i > 0 && bytes.Compare(rec.keys[i-1], k) >= 0 {
-			rep.Fail("derive-sha/order-not-ascending/"+sig, fmt.Sprintf("DeriveSha over %d items feeds key %x after %x", c.N, k, rec.keys[i-1]), c)
+			fail(rep, "derive-sha/order-not-ascending/"+sig, fmt.Sprintf("DeriveSha over %d items feeds key %x after %x", c.N, k, rec.keys[i-1]), c)
 			break
 		}
 		seen[string(k)] = true
 	}
 	if len(rec.keys) != c.N || len(seen) != c.N {
-		rep.Fail("derive-sha/items-missing/"+sig, fmt.Sprintf("DeriveSha over %d items fed %d keys (%d distinct)", c.N, len(rec.keys), len(seen)), c)
+		fail(rep, "derive-sha/items-missing/"+sig, fmt.Sprintf("DeriveSha over %d items fed %d keys (%d distinct)", c.N, len(rec.keys), len(seen)), c)
 	}
 	var framed []byte
 	for _, k := range rec.keys {
@@ -898,7 +915,7 @@ func runDeriveCase(rep *hlib.Report, cw *hlib.CaseWriter, c *Case) {
 func runSortedCase(rep *hlib.Report, c *Case) {
 	defer func() {
 		if r := recover(); r != nil {
-			rep.Fail("panic/stacktrie", fmt.Sprintf("panic in StackTrie with %d keys: %v", len(c.Keys), r), c)
+			fail(rep, "panic/stacktrie", fmt.Sprintf("panic in StackTrie with %d keys: %v", len(c.Keys), r), c)
 		}
 	}()
 	st := trie.NewStackTrie(nil)
@@ -910,7 +927,7 @@ func runSortedCase(rep *hlib.Report, c *Case) {
 		full.Update(c.Keys[i], c.Vals[i])
 	}
 	if a, b := st.Hash(), full.Hash(); a != b {
-		rep.Fail("stacktrie/sorted-set", fmt.Sprintf("%d ascending keys of %d bytes: StackTrie %x, Trie %x", len(c.Keys), len(c.Keys[0]), a, b), c)
+		fail(rep, "stacktrie/sorted-set", fmt.Sprintf("%d ascending keys of %d bytes: StackTrie %x, Trie %x", len(c.Keys), len(c.Keys[0]), a, b), c)
 	}
 	rep.Evaluations++
 	rep.Count("sorted-set:" + bucket(len(c.Keys)))
@@ -1299,6 +1316,10 @@ func main() {
 			runDeriveCase(rep, cw, &c)
 		case "sorted":
 			runSortedCase(rep, &c)
+		case "range":
+			runRangeCase(rep, cw, &c)
+		case "db":
+			runDBCase(rep, cw, &c)
 		default:
 			runTrieCase(rep, cw, &c, rng.Fork(), f.Tier)
 		}
@@ -1336,6 +1357,34 @@ func main() {
 		c := genSortedCase(rng.Fork(), id)
 		id++
 		runSortedCase(rep, c)
+	}
+	// range proofs: adversarial key/value lists against VerifyRangeProof (corpus + random tries)
+	rr := rng.Fork()
+	for _, c := range rangeCorpus(rr, &id) {
+		runRangeCase(rep, cw, c)
+	}
+	for i := 0; i < f.N/6+5; i++ {
+		r := rr.Fork()
+		n := 1 + r.Intn(12)
+		if r.Chance(25) {
+			n = 20 + r.Intn(120)
+		}
+		l := []int{1, 2, 3, 4, 32}[r.Pick(10, 30, 15, 15, 30)]
+		if l == 1 && n > 40 {
+			n = 40
+		}
+		for _, c := range genRangeCases(r, &id, n, l, "random", false) {
+			runRangeCase(rep, cw, c)
+		}
+	}
+	// trie.Database reference counting: histories of commit / Reference / Dereference / Cap / flush
+	for _, c := range dbCorpus(&id) {
+		runDBCase(rep, cw, c)
+	}
+	for i := 0; i < f.N/2+10; i++ {
+		c := genDBCase(rng.Fork(), id)
+		id++
+		runDBCase(rep, cw, c)
 	}
 	cw.Close()
 	rep.Write(f.Out)
